@@ -6,7 +6,7 @@
    translator itself; what an operator does on each shape of value is fixed HERE, fail-closed:
      * a name that was never assigned reads as [VUnbound]; every operator applied to an operand of a shape it does not
        expect (including VUnbound / VErr) yields [VErr];
-     * an `if` / loop bound whose value is not of the expected shape sets the variable "$err" (an exception);
+     * an `if` / loop bound whose value is not of the expected shape sets the variable N_err ("$err", an exception);
    so a generated function can only be proved equal to the model if no such thing happens on any input.
    Vectors are functions on [0, n) as in Model/C05_Dykstra.v; a QOperation object is represented by its stacked vector
    (object-level `+` / `-` are the vector operations: QOperation.__add__ / __sub__, checked per run by the sweep
@@ -28,11 +28,18 @@ Inductive val :=
 | VVec (v : vec)
 | VList (l : list val) | VTuple (l : list val) | VDict (l : list (string * val)).
 
-Definition env := string -> val.
+(* variable names are numbers (the translator emits  Notation N_<python name> := k%positive ; lookups are then cheap for
+   the kernel); the four names of the semantics itself are fixed: *)
+Definition name := positive.
+Definition N_err : name := 1%positive.       (* "$err"     : an exception was raised *)
+Definition N_printed : name := 2%positive.   (* "$printed" : print(...) was executed *)
+Definition N_break : name := 3%positive.     (* "$break"   : `break` was executed in the current loop *)
+Definition N_ret : name := 4%positive.       (* "$ret"     : the returned value *)
+Definition env := name -> val.
 Definition empty : env := fun _ => VUnbound.
-Definition upd (x : string) (v : val) (e : env) : env := fun y => if String.eqb y x then v else e y.
+Definition upd (x : name) (v : val) (e : env) : env := fun y => if Pos.eqb y x then v else e y.
 (* the frame of a function: the environment rebuilt on the listed names, in that order (identity on those names) *)
-Fixpoint restrict (vars : list string) (e : env) : env :=
+Fixpoint restrict (vars : list name) (e : env) : env :=
   match vars with [] => empty | x :: r => upd x (e x) (restrict r e) end.
 Definition str_of_codes (l : list nat) : string := fold_right (fun c s => String (Ascii.ascii_of_nat c) s) EmptyString l.
 
@@ -79,38 +86,38 @@ Definition v_unpack (m i : nat) (t : val) : val :=
   match t with VTuple l => if Nat.eqb (List.length l) m then List.nth i l VErr else VErr | _ => VErr end.
 
 (* ---- statements *)
-Definition raise (e : env) : env := upd "$err" (VBool true) e.
+Definition raise (e : env) : env := upd N_err (VBool true) e.
 Definition s_if (c : val) (t f : env -> env) (e : env) : env :=
   match c with VBool true => t e | VBool false => f e | _ => raise e end.
-(* for x in range(cnt): body   with `break` = setting "$break"; the frame is rebuilt on [vars] after every sweep *)
-Fixpoint for_range (vars : list string) (x : string) (fuel k : nat) (body : env -> env) (e : env) : env :=
+(* for x in range(cnt): body   with `break` = setting N_break; the frame is rebuilt on [vars] after every sweep *)
+Fixpoint for_range (vars : list name) (x : name) (fuel k : nat) (body : env -> env) (e : env) : env :=
   match fuel with
   | O => e
   | S f =>
       let e1 := restrict vars (body (upd x (VInt (Z.of_nat k)) e)) in
-      match e1 "$break" with VBool true => e1 | _ => for_range vars x f (S k) body e1 end
+      match e1 N_break with VBool true => e1 | _ => for_range vars x f (S k) body e1 end
   end.
-Definition s_for (vars : list string) (x : string) (cnt : val) (body : env -> env) (e : env) : env :=
+Definition s_for (vars : list name) (x : name) (cnt : val) (body : env -> env) (e : env) : env :=
   match cnt with
-  | VInt z => for_range vars x (Z.to_nat z) 0 body (restrict vars (upd "$break" (VBool false) e))
+  | VInt z => for_range vars x (Z.to_nat z) 0 body (restrict vars (upd N_break (VBool false) e))
   | _ => raise e
   end.
 (* ---- statement combinators in the form the translator emits: a block is [seq [st; st; ...]], every statement an
    environment transformer whose right-hand sides are functions of the current environment *)
 Definition seq (l : list (env -> env)) (e : env) : env := fold_left (fun e st => st e) l e.
-Definition s_assign (x : string) (rhs : env -> val) : env -> env := fun e => upd x (rhs e) e.
+Definition s_assign (x : name) (rhs : env -> val) : env -> env := fun e => upd x (rhs e) e.
 Definition s_bind (rhs : env -> val) (k : val -> env -> env) : env -> env := fun e => k (rhs e) e.
 Definition s_ifs (c : env -> val) (t f : env -> env) : env -> env := fun e => s_if (c e) t f e.
-Definition s_fors (vars : list string) (x : string) (cnt : env -> val) (body : env -> env) : env -> env :=
+Definition s_fors (vars : list name) (x : name) (cnt : env -> val) (body : env -> env) : env -> env :=
   fun e => s_for vars x (cnt e) body e.
 (* initial frame of every generated function *)
-Definition env0 : env := upd "$err" (VBool false) (upd "$printed" (VBool false) empty).
+Definition env0 : env := upd N_err (VBool false) (upd N_printed (VBool false) empty).
 (* value of a call of another generated function: its "$ret" unless it raised *)
-Definition call_ret (e : env) : val := match e "$err" with VBool false => e "$ret" | _ => VErr end.
+Definition call_ret (e : env) : val := match e N_err with VBool false => e N_ret | _ => VErr end.
 (* print(f"...{a}...{b}"): formatting reads the names (an unbound one raises), then the fact is recorded in "$printed" *)
 Definition is_bad (v : val) : bool := match v with VUnbound | VErr => true | _ => false end.
 Definition s_print (vals : list val) (e : env) : env :=
-  if existsb is_bad vals then raise e else upd "$printed" (VBool true) e.
+  if existsb is_bad vals then raise e else upd N_printed (VBool true) e.
 Definition s_prints (vals : env -> list val) : env -> env := fun e => s_print (vals e) e.
 End PySem.
 
